@@ -113,6 +113,15 @@ def planSt (w : World) (hc : HCfg) : Ty → HVal → Option Cell → Option Obj 
           .copyPatch hc.cfg.detailed (doomed || (hc.cfg.forbid && !keyStrs kvs allowed)) false l kvs ps
         | _ => .fail
   | .td _, _, _, _ => .fail
+  -- `structure_attrs_union`: the decision function only reads the payload; the hook of the chosen class does
+  -- all the building (the union hook builds nothing itself)
+  | .union cs hn, v, view, obj =>
+      match obj with
+      | some o => match unionPick w cs hn o with
+        | .ok m => planClsSt w hc.cfg m v view obj
+        | .none => .leaf .none
+        | _ => .fail
+      | none => .fail
   -- builtin leaf coercions (`int(x)`, `str(x)`, `Enum(x)`, literal membership …): the pure model
   -- says whether they raise; what they return is immutable
   | t, _, _, obj =>
